@@ -327,7 +327,7 @@ fn renderings(row: &[Cell]) -> Vec<String> {
 
 /// display() must agree with the grid (compared after NFC: canonical equivalence is
 /// preserved by concatenation, and cell texts are stored NFC-normalised in the snapshot).
-fn check_display(pre: &Snap, d: &[String]) -> Option<String> {
+pub fn check_display(pre: &Snap, d: &[String]) -> Option<String> {
     use unicode_normalization::UnicodeNormalization;
     if d.len() != pre.grid.len() {
         return Some(format!("display() returned {} rows, lines={}", d.len(), pre.grid.len()));
@@ -468,7 +468,7 @@ pub fn c10(c: &Collector, g: &mut Guard) {
 }
 
 // =====================================================================  C15
-fn c15_compare(c: &Collector, t: &Trans, engine: &str, local: &mut Local, cont_depth: usize) {
+pub fn c15_compare(c: &Collector, t: &Trans, engine: &str, local: &mut Local, cont_depth: usize) {
     let (s, post) = match t.outcome {
         Ok((s, post, _)) => (s, post),
         Err(m) => {
@@ -638,7 +638,7 @@ fn screen_wide(t: &Trans, m: &Model) -> Option<&'static str> {
     }
 }
 
-fn c17_judge(c: &Collector, t: &Trans, engine: &str, local: &mut Local) -> bool {
+pub fn c17_judge(c: &Collector, t: &Trans, engine: &str, local: &mut Local) -> bool {
     let (_, post) = match t.outcome {
         Ok((s, post, _)) => (s, post),
         Err(_) => return false,
@@ -1236,7 +1236,7 @@ pub fn c12(c: &Collector, g: &mut Guard) {
 // =====================================================================  C16
 const C16_COMPS: [Comp; 4] = [Comp::Geometry, Comp::Grid, Comp::Margins, Comp::Saves];
 
-fn c16_judge(c: &Collector, t: &Trans, engine: &str, local: &mut Local) -> bool {
+pub fn c16_judge(c: &Collector, t: &Trans, engine: &str, local: &mut Local) -> bool {
     let (l1, c1) = match t.op {
         Op::Resize(a, b) => (a.unwrap_or(t.pre.lines), b.unwrap_or(t.pre.columns)),
         _ => return expand_ok(t),
@@ -1442,7 +1442,7 @@ fn rendition_bases(c: &Collector, all: bool) -> Vec<Base> {
     v
 }
 
-fn c08_judge(c: &Collector, t: &Trans, engine: &str, local: &mut Local) {
+pub fn c08_judge(c: &Collector, t: &Trans, engine: &str, local: &mut Local) {
     if !refine_all(c, "C08", engine, t, local) {
         return;
     }
